@@ -228,9 +228,16 @@ def generate(rng, n, tier):
             if rng.random() < 0.15 and pairs:
                 a = rng.choice(rng.choice(pairs))   # one entry is named by its negative index everywhere (may be out of range)
                 pairs = [[i - len(x) if i == a else i, j - len(x) if j == a else j] for i, j in pairs]
+            off = rng.choice([None, 0.0, 0.0, 1.0, 0.5, -2.0])
+            if rng.random() < 0.2 and len(pairs) >= 2 and len(x) >= 3:
+                # a pair that bridges two groups (an entry tied to two partners): only meaningful without an offset
+                a, b_ = rng.sample(range(len(pairs)), 2)
+                pairs.append([pairs[a][rng.randrange(2)], pairs[b_][1]])
+                pairs = [p for i, p in enumerate(pairs) if p[0] != p[1] and p not in pairs[:i]]
+                off = rng.choice([None, 0.0])
             if not _offset_loop_terminates(pairs):
                 pairs = []
-            c.update(mask=pairs, offset=rng.choice([None, 0.0, 0.0, 1.0, 0.5, -2.0]), x=x)
+            c.update(mask=pairs, offset=off, x=x)
         elif t == "unique" and rng.random() < 0.3:
             kind = rng.choice(["none", "int", "float", "dict"])
             x = [rng.randint(0, 6) for _ in range(rng.choice([1, 2, 3, 4, 5, 6]))]
